@@ -133,21 +133,21 @@ DESCR = {
     "Compare": "`values/compare.go`, `values/predicates.go`: `Equal`, `Less`, `joinKind`, `contains`, operators",
     "Convert": "`values/convert.go`: conversion to parameter types (a string to a time through `ParseDate`, a time to a string through `Time.String()`), array conversion with `ToLiquid` per element",
     "Call": "`values/call.go` + `expressions/filters.go`: filter registry signatures, arity/parity errors, default-function parameters (lazy)",
-    "Sprint": "`fmt.Sprint`/`%v` for the admitted kinds, `strconv` shortest float formatting, `time.Format` of a UTC time for the layouts of `writeObject` and `String()` (`appendInt`: every year), `writeObject`",
+    "Sprint": "`fmt.Sprint`/`%v` for the admitted kinds, `strconv` shortest float formatting, `time.Format` of a UTC time for the layouts of `writeObject` and `String()` (`appendInt`: every year), `values.ResolveDrops` (`GoVal.resolveDrops`; `sprintR` = `fmt.Sprint(values.ResolveDrops(·))`, how the library prints a container in Go syntax), `writeObject`",
     "Render": "`render/*.go` + `tags/*.go`: compile to `Node`, interaction tree `Prog` of writer calls, render monad `M`, statuses (break/continue), `wrapError`, if/unless/case, for/tablerow/cycle, assign/capture, include with fuel",
     "TrimWriter": "`render/trimwriter.go` on bytes: `TW.step` with the underlying `Write` calls it issues",
     "TrimGeneric": "the same machine over an arbitrary alphabet (proof vehicle of C13)",
     "Std": "the standard configuration: `stdPrims`, `stdOut`, filter table Num ++ Str ++ Arr ++ Json ++ Date (all 48 registered filters), file-system model, canonical result printing",
     "Conc": "interleaving machine over a store with ownership regions (C04)",
     "ConcFacts": "the store facts (`WriteFact.offending`: the statically checked necessary condition of C04's ownership premise) and the call facts (`auditedGlobalCalls`: the five audited read-only package-level variables) over the generated write table",
-    "MapIterFacts": "the eight audited map-iteration sites of the library with the reason why the order cannot reach the output (sorted before use / copied into a fresh map / conjunction over all entries); read from the source, not proved (T5, C02)",
+    "MapIterFacts": "the ten audited map-iteration sites of the library with the reason why the order cannot reach the output (sorted before use / copied into a fresh map / conjunction over all entries); read from the source, not proved (T5, C02)",
     "MapOrder": "`values/sort.go`: `keyClass`, `valueLess`, `numberLess`, `keyTypeName`, `keyLess` clause by clause and `sortedEntries` (stable insertion sort by key) = the order of `values.SortedMapKeys`, called by every place of the model that iterates a map (a map value holds its entries in no particular order); `sortedFields` for `IterationKeyedMap`; the codec's canonical order (`canonOrder`, `canonEnc`) for result lines and for `uniq`",
     "Driver": "line-protocol dispatcher (one op per line → one canonical result line)",
     "Filters/Num": "numeric filter bodies (plus minus times divided_by modulo abs ceil floor round, default, size)",
     "Filters/Str": "string filter bodies (23 filters)",
     "Filters/StrGlue": "string filters plugged into the call layer (lazy arguments)",
     "InsertionSort": "Go's `sort.insertionSort` (`sort/zsortinterface.go`) — all of `sort.Sort` on at most 12 elements — loop by loop, for a total and for a partial (panicking / unmodelled) comparator",
-    "Filters/Arr": "array filter bodies (compact concat join map reverse sort sort_natural first last uniq): the sorts exact up to 12 elements (insertion sort), a sorted permutation beyond; canonical sort form for results of more than 12 elements",
+    "Filters/Arr": "array filter bodies (compact concat join map reverse sort sort_natural first last uniq): the sorts exact up to 12 elements (insertion sort), a sorted permutation beyond; canonical sort form for results of more than 12 elements; `uniq` by `uniqKey` (scalars by dynamic type and contents, arrays and maps by what they hold: `uniqForm`)",
     "Filters/Json": "`json`, `inspect`, `type`: `encoding/json` marshalling of the value universe (float format switch, HTML-safe string escaping, base64, sorted map keys, structs, pointers, `time.Time`) and `%T`",
     "Filters/Date": "`date` = `tuesday.Strftime` on a UTC time: the directive regexp as a deterministic scanner (`matchDirective`: flag, width, `E`/`O`, conversion), all of `convert` (46 conversions, `%x` for the other letters), the padding table, flags `- _ 0 ^ #` and colons, `fmt`'s `%d` with blank and zero padding (`fmtNum`), `applyFlags`; widths up to 1024",
     "Heap": "slice memory (C15/C03 no-write clause): `Store` of backing arrays, `SliceRef` arr/off/len/cap, programs `Prog` (read / write / alloc) with the interpreter `run` returning store and WRITE LOG; Go's `index`, element assignment, `reslice`, `make`, `append` (in place into spare capacity, else allocate), `copy`; `values.Convert(·, []any)` (a `[]any` without drops is passed through uncopied) and the bodies of compact concat join map reverse sort sort_natural first last uniq size default at that level; one filter application `stageF`, pipelines `runChain`; driver op `alias`",
